@@ -127,7 +127,7 @@ func checkC02(c *Ctx) {
 		"outside, coordinate planes, sector boundaries +-delta, rotation axis, far field) against a reference interpreter that calls real " +
 		"code only on leaves; blend laws on the blend functions and on root-blended shapes; cache query histories; voxel corner / cell " +
 		"range. Non-trivial tree = both signs seen and >= 2 distinct combinator kinds; distinct = tree description.")
-	c.Assume("tolerance 1e-9*(tree size + |p|); at points within 1e-9 rad of a rotate-copy sector boundary either fold is accepted; orientation of Slice2D's in-plane axes is an implementation choice (learned with a probe leaf, then checked to be a right-handed isometric frame of the plane)")
+	c.Assume("tolerance 1e-9*(tree size + |p| + |value|); at points within 1e-9 rad of a rotate-copy sector boundary either fold is accepted; orientation of Slice2D's in-plane axes is an implementation choice (learned with a probe leaf, then checked to be a right-handed isometric frame of the plane)")
 	nTrees := c.Pick(6000, 60000)
 	nPts := c.Pick(400, 1500)
 	maxDepth := c.Pick(3, 5)
@@ -167,7 +167,7 @@ func checkC02(c *Ctx) {
 			} else {
 				pos++
 			}
-			tol := 1e-9*(L+pl) + 1e-11*math.Abs(got)
+			tol := 1e-9 * (L + pl + math.Abs(got)) // far-field twist/scale maps amplify coordinates (and their rounding) by |value|/size
 			ok, d := matchAny(got, want, tol)
 			if d/(L+pl) > worst && !math.IsInf(d, 0) {
 				worst = d / (L + pl)
